@@ -55,7 +55,7 @@ type progress struct {
 
 func TestC15(t *testing.T) {
 	r := ev.Start("C15", "exploration")
-	r.Rule("bounded-exhaustive: every canonical sequence (keys first appear in order 0,1,2) of exactly L ops over {Set k (unique value), Get k, Delete k, advance clock by expiry/2+1ns, Close} with k in {0,1,2}, for capacities 1-3 x {lru,lfu,slru,tinylfu} x expiry on/off x synchronous/asynchronous callbacks (and shorter sequences on nearly empty caches of capacity 99/100/101/250), each compared after every op with a reference model (lru, slru exact; lfu exact up to ties; tinylfu generic invariants); plus seeded random sequences of length 20*cap for capacities on both sides of the internal thresholds; plus real-goroutine rounds (8 workers, every key set once with a unique value, then read and deleted by anybody) with a conservation oracle: each entry is removed by exactly one successful Delete or reported by exactly one callback with its own value, Get returns the key's own value or a miss, Len <= capacity, no panic. A case is distinct+non-trivial when its (variant, sequence) caused at least one eviction or expiry callback before Close.")
+	r.Rule("bounded-exhaustive: every canonical sequence (keys first appear in order 0,1,2) of exactly L ops over {Set k (unique value), Get k, Delete k, advance clock by expiry/2+1ns, Close} (random and scripted sequences also advance by exactly expiry/2, so that lookups fall on the expiration instant itself) with k in {0,1,2}, for capacities 1-3 x {lru,lfu,slru,tinylfu} x expiry on/off x synchronous/asynchronous callbacks (and shorter sequences on nearly empty caches of capacity 99/100/101/250), each compared after every op with a reference model (lru, slru exact; lfu exact up to ties; tinylfu generic invariants); plus seeded random sequences of length 20*cap for capacities on both sides of the internal thresholds; plus real-goroutine rounds (8 workers, every key set once with a unique value, then read and deleted by anybody) with a conservation oracle: each entry is removed by exactly one successful Delete or reported by exactly one callback with its own value, Get returns the key's own value or a miss, Len <= capacity, no panic. A case is distinct+non-trivial when its (variant, sequence) caused at least one eviction or expiry callback before Close.")
 	r.Assume("reference models written from the textbook definitions (SLRU with the code's documented 80/20 split)",
 		"asynchronous variants run inside testing/synctest bubbles; synctest.Wait() is the quiescence point at which callbacks are compared",
 		"a sequence that makes no progress for 120 s of wall clock is reported as a hang (single-goroutine work that normally takes microseconds)")
@@ -197,6 +197,27 @@ func TestC15(t *testing.T) {
 					}
 					r.SetAdd("random_capacities", fmt.Sprint(v.Policy, v.Cap))
 				}
+				if v.Expiry {
+					// scripted: lookups at exactly the expiration instant, one tick later, and a Set over an entry that
+					// has expired but has not been looked up since
+					S, G, D, A, E, C := byte('S'), byte('G'), byte('D'), byte('A'), byte('E'), byte('C')
+					_ = D
+					for si, sq := range [][]op{
+						{{S, 0}, {E, 0}, {E, 0}, {G, 0}, {G, 0}},
+						{{S, 0}, {E, 0}, {E, 0}, {G, 0}, {A, 0}, {G, 0}},
+						{{S, 0}, {S, 1}, {E, 0}, {S, 1}, {E, 0}, {G, 0}, {G, 1}, {E, 0}, {G, 1}, {A, 0}, {G, 1}},
+						{{S, 0}, {A, 0}, {A, 0}, {S, 0}, {G, 0}, {S, 1}, {S, 2}, {S, 3}, {G, 0}, {C, 0}},
+						{{S, 0}, {S, 1}, {A, 0}, {A, 0}, {S, 0}, {S, 1}, {S, 2}, {G, 0}, {G, 1}, {G, 2}, {S, 3}, {S, 4}, {G, 0}, {G, 1}, {C, 0}},
+						{{S, 0}, {E, 0}, {E, 0}, {S, 0}, {E, 0}, {E, 0}, {G, 0}, {A, 0}, {S, 0}, {S, 1}, {G, 0}, {C, 0}},
+					} {
+						s := v.String() + " scripted#" + fmt.Sprint(si)
+						p.cur.Store(&s)
+						p.tick.Add(1)
+						o := runSeq(v, sq, !v.Sync)
+						r.Count("scripted_expiry_sequences", 1)
+						report(v, sq, o)
+					}
+				}
 			}
 			if v.Sync {
 				body()
@@ -271,7 +292,7 @@ func randomSeq(rng *rand.Rand, v variant) []op {
 			ops = append(ops, op{'D', k})
 		default:
 			if v.Expiry {
-				ops = append(ops, op{'A', 0})
+				ops = append(ops, op{[]byte{'A', 'E', 'E'}[rng.Intn(3)], 0})
 			} else {
 				ops = append(ops, op{'G', k})
 			}
